@@ -88,7 +88,7 @@ PROPS = {
         "explanation": "Theorems: detached_array_child / replaced_slot / detached_map_child _leaves_parent_unchanged (the callback answers not-found before any write: containers, index tables and effect log untouched), remove_forgets_index; handed_back_is_standalone (C10). Oracle: dump of the former parent unchanged, returned storable is a reference with the unchanged value ID.",
     },
     "C01": {
-        "streams": ["array", "persist", "settings"], "driver": {"array": "array", "persist": "array", "settings": "settings"}, "level": "proof",
+        "streams": ["array", "persist", "settings", "nested"], "driver": {"array": "array", "persist": "array", "settings": "settings", "nested": "world"}, "level": "proof",
         "trusted_base": LEAN_TB, "assumptions": ARRAY_ASSUME + [
             "nested containers as elements are covered by C10's World model, not by these theorems (elements here are plain values of any size and references)",
             "the guard count < 2^32-1 (maxArrayElementCount) is a hypothesis of insert_refines; at the excluded point the code returns its dedicated error, reproduced by the model"],
